@@ -131,6 +131,15 @@ func TestVerifC02Core(t *testing.T) {
 				sc.Net.Outages = [][2]int{{st, st + l}}
 				sc.Net.HealAt = st + l + rng.between(1, 5000)
 			}
+			// delivery does not depend on where the sequence numbers and the clock are
+			switch rng.intn(5) {
+			case 0:
+				sc.Clock = uint32(0) - uint32(rng.between(0, 20000))
+				sc.SnA, sc.SnB = uint32(0)-uint32(rng.between(0, 300)), uint32(0)-uint32(rng.between(0, 300))
+			case 1:
+				sc.Clock = uint32(1<<31) - uint32(rng.between(0, 20000))
+				sc.SnA, sc.SnB = uint32(1<<31)-uint32(rng.between(0, 300)), uint32(1<<31)-uint32(rng.between(0, 300))
+			}
 			rec.beginCase(sc)
 			rec.guard(sc, func() {
 				res := runCoreScenario(rec, &sc, rng, func(s *simCore) {
